@@ -105,6 +105,17 @@ func (dc *TraditionalDnsConn) exchange(ctx context.Context, q []byte) (*[]byte, 
 	}
 	defer dc.deleteQueueC(assignedQid)
 
+	// A reply that was already handed over wins over any error.
+	takeResp := func() *[]byte {
+		select {
+		case r := <-respChan:
+			binary.BigEndian.PutUint16(*r, binary.BigEndian.Uint16(q))
+			return r
+		default:
+			return nil
+		}
+	}
+
 	// Reminder: Set write deadline here is not very useful to avoid dead connections.
 	// Typically, a write operation will time out only if its socket buffer is full.
 	// Ser read deadline is enough.
@@ -112,6 +123,9 @@ func (dc *TraditionalDnsConn) exchange(ctx context.Context, q []byte) (*[]byte, 
 	if err != nil {
 		// Write error usually is fatal. Abort and close this connection.
 		dc.CloseWithErr(fmt.Errorf("write err, %w", err))
+		if r := takeResp(); r != nil {
+			return r, nil
+		}
 		return nil, err
 	}
 
@@ -134,11 +148,17 @@ func (dc *TraditionalDnsConn) exchange(ctx context.Context, q []byte) (*[]byte, 
 wait:
 	select {
 	case <-ctx.Done():
+		if r := takeResp(); r != nil {
+			return r, nil
+		}
 		return nil, context.Cause(ctx)
 	case <-resend:
 		err := dc.writeQuery(q, assignedQid)
 		if err != nil {
 			dc.CloseWithErr(fmt.Errorf("write err, %w", err))
+			if r := takeResp(); r != nil {
+				return r, nil
+			}
 			return nil, err
 		}
 		goto wait
@@ -147,6 +167,9 @@ wait:
 		binary.BigEndian.PutUint16(*r, orgId)
 		return r, nil
 	case <-dc.closeNotify:
+		if r := takeResp(); r != nil {
+			return r, nil
+		}
 		return nil, dc.closeErr
 	}
 }
